@@ -117,6 +117,31 @@ fn conc_check(r: &RunResult, cc: &ConcCase) -> Report {
   rep
 }
 
+/// re-entrancy on the library's own threads: callbacks that run on a timer / scheduler worker
+/// (debounce, delay, timeout, interval, observe_on) push items into the source, unsubscribe
+/// or subscribe again
+fn timed_reentrant_check(_ctx: &Ctx, c: &super::timed::TimedCase) -> Report {
+  let r = super::timed::run_timed(c);
+  let mut rep = Report::ok();
+  rep.classes = op_classes(&c.case);
+  rep.classes.push(format!("outcome:{:?}", r.outcome.kind));
+  rep.sample = Some(super::timed::render_t(c, &r));
+  rep.nontrivial = !r.log.reactions_fired.is_empty();
+  for (k, ri) in &r.log.reactions_fired {
+    rep.classes.push(format!("reaction:{}", match &c.case.recorders[*k][*ri].what {
+      React::UnsubSelf => "unsubscribe-self",
+      React::Emit(_, Ev::N(_)) => "emit-item",
+      React::Emit(_, _) => "emit-terminal",
+      React::Subscribe(_) => "subscribe",
+    }));
+  }
+  // a timer that is still subscribed at the end keeps ticking: only blocking counts here
+  if r.outcome.kind == arx_rt::Kind::Deadlock {
+    rep.fail = Some(format!("deadlock: {} | {}", r.outcome.describe(), super::timed::render_t(c, &r)));
+  }
+  rep
+}
+
 // ---------------------------------------------------------------------------------------
 // re-entrancy from the *outer* callback of window_with_count / group_by (the callback that
 // receives the inner observable), and from scheduler tasks
@@ -272,6 +297,7 @@ pub fn properties() -> Vec<Property> {
       mk_sub("seq", (1500, 30_000), |ctx| seq_strategy(seq_cfg(ctx, false)), seq_check),
       mk_sub("reentrant", (1500, 30_000), |ctx| seq_strategy(seq_cfg(ctx, true)), seq_check),
       mk_sub("reentrant_groups", (1500, 30_000), group_strategy, group_check),
+      mk_sub("reentrant_timed", (600, 12_000), |ctx| super::timed::timed_strategy(ctx, true), timed_reentrant_check),
       mk_sub("conc_unsub", (400, 8_000), conc::c05_plain_strategy, |_ctx, c: &conc::C05Case| conc_check(&run_cc(&c.cc, 100), &c.cc)),
       mk_sub("conc_sched", (300, 6_000), |ctx| conc::c09_strategy(ctx, false), |_ctx, c: &conc::C09Case| conc_check(&run_cc(&c.cc, 5_000), &c.cc)),
       mk_sub("conc_combine", (400, 8_000), conc::c11_strategy, |_ctx, c: &conc::C11Case| conc_check(&run_cc(&c.cc, 2_000), &c.cc)),
